@@ -219,6 +219,8 @@ def gen_case(streams, tier):
     return {"static": s, "stmts": st["stmts"], "zeroed": zeroed, "any_state": any_state,
             "min_int": min_int, "allow_resets": f.random() < 0.7, "idle_measured": w.random() < 0.4,
             "api": w.choice(["ops", "ops", "functions", "context_manager"]),
+            "reuse": w.random() < 0.3, "registers_as": w.choice(["list", "list", "tuple"]),
+            "state_as": w.choice(["enum", "enum", "str"]),
             "dirty_angles": [qgen.rand_angle(w) for _ in any_state]}
 
 
@@ -247,7 +249,9 @@ def _build_tape(case):
                 _, aid, n, state, restored = st
                 if api == "ops":
                     ws = [DW() for _ in range(n)]
-                    Allocate(ws, state=AS(state), restored=restored)
+                    # (the documented type of `state` is the enum or its plain string)
+                    Allocate(ws, state=AS(state) if case.get("state_as", "enum") == "enum" else str(state),
+                             restored=restored)
                 else:
                     reg = qp.allocate(n, state=state, restored=restored)
                     if api == "context_manager":
@@ -326,9 +330,25 @@ def run_case(case):
     ref_rho = _reduced(ref_state, data, ref_n)
     assignment = []
     resolved = None
+    # the registers as the caller holds them: lists (or tuples) that outlive one application of the transform
+    as_seq = tuple if case.get("registers_as") == "tuple" else list
+    zl, al = as_seq(case["zeroed"]), as_seq(case["any_state"])
+    if case.get("reuse"):
+        # the same configured transform applied once before (as a QNode does on every call): the second
+        # application must find the registers as the caller wrote them
+        counters["transform_applied_twice"] = 1
+        try:
+            qp.transforms.resolve_dynamic_wires(tape, zeroed=zl, any_state=al, min_int=case["min_int"],
+                                                allow_resets=case["allow_resets"])
+        except AllocationError:
+            pass
+        if list(zl) != list(case["zeroed"]) or list(al) != list(case["any_state"]):
+            viol("caller_registers_modified_by_the_transform", {},
+                 {"zeroed_before": list(case["zeroed"]), "zeroed_after": list(zl),
+                  "any_state_before": list(case["any_state"]), "any_state_after": list(al)})
     try:
         (resolved,), _ = qp.transforms.resolve_dynamic_wires(
-            tape, zeroed=list(case["zeroed"]), any_state=list(case["any_state"]),
+            tape, zeroed=zl, any_state=al,
             min_int=case["min_int"], allow_resets=case["allow_resets"])
     except AllocationError as e:
         # legitimate only if the registers really cannot serve the history
